@@ -32,10 +32,11 @@ def _prefixes():
 
 class StepClock(object):
     __slots__ = ('steps', 'limit', 'intr_at', 'intr_exc', 'next_event', 'hook', 'hook_at',
-                 'reach', 'prefixes', '_glob', 'last_frame', 'fired', 'extra_prefixes', 'opcode', 'ref_calls')
+                 'reach', 'prefixes', '_glob', 'last_frame', 'fired', 'extra_prefixes', 'opcode', 'ref_calls', 'steplog')
 
-    def __init__(self, reach=False, extra_prefixes=(), opcode=False):
+    def __init__(self, reach=False, extra_prefixes=(), opcode=False, steplog=False):
         self.steps = 0
+        self.steplog = [] if steplog else None    # file of every step, in order (for targeted sweeps)
         self.limit = None          # absolute step number at which the budget ends
         self.intr_at = None        # absolute step number for the injected interrupt
         self.intr_exc = None
@@ -87,7 +88,17 @@ class StepClock(object):
         ev_name = 'opcode' if opcode else 'line'
         refmod = os.path.join('hotxlfp', 'parser.py')
 
-        if reach is None:
+        steplog = self.steplog
+        if steplog is not None:
+            def local(frame, event, arg):
+                if event == ev_name:
+                    s = clock.steps + 1
+                    clock.steps = s
+                    steplog.append(frame.f_code.co_filename)
+                    if s >= clock.next_event:
+                        clock._event(frame)
+                return local
+        elif reach is None:
             def local(frame, event, arg):
                 if event == ev_name:
                     s = clock.steps + 1
